@@ -5,8 +5,11 @@
    Go                                                        model
    --                                                        -----
    d.sampleRate = d.Config.SampleRate            (int)       d_rate  : Z  (any Go int)
-   d.upperBound = math.MaxUint32 / uint32(rate)              gen_bound MAX bits rate
-        uint32(rate)  = rate mod 2^32 ; divisor 0 = runtime panic  -> None
+   d.upperBound = math.MaxUint32                             det_bound MAX bits rate
+   if uint64(rate) > math.MaxUint32 { upperBound = 0 }            uint64(rate) = rate mod 2^64
+   else if rate > 1 { upperBound = MaxUint32 / uint32(rate) }     uint32(rate) = rate mod 2^32 (exact there)
+        (Start cannot panic any more; det_start still returns an option so that a future
+         panic path would show up as None)
    if d.sampleRate <= 1 { return 1, true }                   gen_get
    v := BigEndian.Uint32(sha1(traceID+salt)[:4])             h : Z   (oracle: the harness passes the value
    return uint(rate), v <= d.upperBound                               the real hash returned, 0 <= h < 2^32)
@@ -17,10 +20,27 @@
    hash := wyhash.Hash(traceID, hashSeed)                    h : Z   (oracle, 0 <= h < 2^64)
    return uint(rate), hash <= s.upperBound
 
-   Every numeric constant, the width of the conversion and the comparison operators come from
-   Gen/GenC10.v (extracted from the Go source on every run).  No proofs in this file. *)
+   Every numeric constant, the width of the conversion and the comparison operators are named
+   constants below, proved equal to what the translator extracts from the Go source on every run
+   (Gen/GenC10.v).  No proofs in this file. *)
 From Refinery Require Import Lib.Base.
-From Refinery Require Gen.GenC10.
+
+(* The constants of the two Go functions.  The executable model and the monitor use these literals,
+   so that they keep compiling (and the monitors keep running on the implementation's
+   observations) whatever happens to the source; Proofs/Determ.v proves that the values the
+   translator extracts from the source (Gen/GenC10.v) are exactly these — a source edit that
+   changes one of them, or makes it unextractable, leaves C10_source_shape* undischarged. *)
+Definition DET_MAX : Z := 4294967295.           (* math.MaxUint32 *)
+Definition DET_BITS : Z := 32.                  (* uint32(rate) *)
+Definition DET_ALWAYS : Z := 1.                 (* rate <= 1 keeps everything *)
+Definition DET_LE : bool := true.               (* v <= upperBound *)
+Definition DET_HASH_BYTES : Z := 4.             (* sum[:4] *)
+Definition DET_SALT : string := "5VQ8l2jE5aJLPVqk".
+Definition STRESS_MAX : Z := 18446744073709551615.   (* math.MaxUint64 *)
+Definition STRESS_ZERO : Z := 1.                (* SamplingRate 0 is read as 1 *)
+Definition STRESS_ALWAYS : Z := 1.
+Definition STRESS_LE : bool := true.            (* hash <= upperBound *)
+Definition STRESS_SEED : N := 34527861234%N.
 
 (* ---------- generic pieces ---------- *)
 Definition thr_cmp (le : bool) (h b : Z) : bool := if le then h <=? b else h <? b.
@@ -39,14 +59,20 @@ Definition gen_get (always : Z) (le : bool) (rate bound h : Z) : Z * bool :=
 (* ---------- deterministic sampler ---------- *)
 Record det_inst := { d_rate : Z; d_bound : Z }.
 
+(* rate is a Go int (64 bits): uint64(rate) = rate mod 2^64 *)
+Definition det_bound (MAX bits rate : Z) : option Z :=
+  if MAX <? rate mod 18446744073709551616 then Some 0
+  else if 1 <? rate then gen_bound MAX bits rate
+  else Some MAX.
+
 Definition det_start (rate : Z) : option det_inst :=
-  match gen_bound GenC10.det_max GenC10.det_conv_bits rate with
-  | None => None                                   (* Start panics *)
+  match det_bound DET_MAX DET_BITS rate with
+  | None => None
   | Some b => Some {| d_rate := rate; d_bound := b |}
   end.
 
 Definition det_get (i : det_inst) (h : Z) : Z * bool :=
-  gen_get GenC10.det_always_le GenC10.det_cmp_le (d_rate i) (d_bound i) h.
+  gen_get DET_ALWAYS DET_LE (d_rate i) (d_bound i) h.
 
 (* Start followed by one GetSampleRate *)
 Definition det_sample (rate h : Z) : option (Z * bool) :=
@@ -56,18 +82,18 @@ Definition det_keep (rate h : Z) : bool :=
   match det_sample rate h with Some (_, k) => k | None => false end.
 
 (* size of the hash range: h is [det_hash_bytes] big-endian bytes *)
-Definition det_hash_range : Z := 2 ^ (8 * GenC10.det_hash_bytes).
+Definition det_hash_range : Z := 2 ^ (8 * DET_HASH_BYTES).
 
 (* ---------- stress relief ---------- *)
 Record stress_inst := { s_rate : Z; s_bound : Z }.
 
 (* cfg is a uint64: 0 <= cfg < 2^64 *)
 Definition stress_update (cfg : Z) : stress_inst :=
-  let r := if cfg =? 0 then GenC10.stress_zero_becomes else cfg in
-  {| s_rate := r; s_bound := GenC10.stress_max / r |}.
+  let r := if cfg =? 0 then STRESS_ZERO else cfg in
+  {| s_rate := r; s_bound := STRESS_MAX / r |}.
 
 Definition stress_get (i : stress_inst) (h : Z) : Z * bool :=
-  gen_get GenC10.stress_always_le GenC10.stress_cmp_le (s_rate i) (s_bound i) h.
+  gen_get STRESS_ALWAYS STRESS_LE (s_rate i) (s_bound i) h.
 
 Definition stress_sample (cfg h : Z) : Z * bool := stress_get (stress_update cfg) h.
 Definition stress_keep (cfg h : Z) : bool := snd (stress_sample cfg h).
